@@ -41,15 +41,33 @@ def gen_cases(tier, seed):
         if len(d["workload"]["einsums"]) > 1:
             d["mapper"]["max_fused_loops"] = rnd.choice([0, 1, 2, "inf"])
             d["mapper"]["max_fused_loops_per_rank_variable"] = rnd.choice([1, 1, 2])
-        if i % 4 == 3 and len(d["workload"]["einsums"]) == 1:
+        if i % 4 == 3:
             # spatial class: a Container with one fanout and (usually) a loop_bounds constraint
+            if len(d["workload"]["einsums"]) != 1:
+                wk = rnd.choice(["mm1", "mm1", "mv1"])
+                d = gs.gen_spec(rnd, wk, levels=rnd.choice([2, 2, 3]), size_class=rnd.choice(["tight", "tight", "generous"]))
             rvs = sorted(d["workload"]["ranks"])
             sp = {"name": "X", "fanout": rnd.choice([2, 3, 4])}
-            kind = rnd.choice(["none", "only", "le", "prod"])
+            kind = rnd.choice(["none", "only", "le", "prod", "ge", "ge", "ge", "prod_ge", "prod_ge", "ge"])
+            if kind in ("ge", "prod_ge"):
+                # lower bounds on the fanout BELOW a small buffer: the constrained spatial loop then has two enclosing
+                # loops over its rank variable (above and below the buffer) and the bound is relative to the nearest one
+                for rv in d["workload"]["ranks"]:
+                    d["workload"]["ranks"][rv] = rnd.choice([8, 12, 16])
+                sp["fanout"] = rnd.choice([4, 8])
+                sizes = sorted(gs.tensor_sizes(d["workload"]).values())
+                d["arch"]["mems"][1]["size"] = rnd.randint(max(8, sizes[0] // 4), max(16, sizes[-1] // 2)) * d["workload"]["bits"]
+                d["arch"]["mems"][1]["keep"] = rnd.choice(["All", "All", "Nothing"])
+                d["arch"]["size_class"] = "tight"
             if kind == "only":
                 sp["loop_bounds"] = [{"expression": "~" + rnd.choice(rvs), "operator": "==", "value": 1}]
             elif kind == "le":
                 sp["loop_bounds"] = [{"expression": rnd.choice(rvs + ["All"]) if False else rnd.choice(rvs), "operator": "<=", "value": rnd.choice([1, 2])}]
+            elif kind == "ge":
+                sp["loop_bounds"] = [{"expression": rnd.choice(rvs), "operator": rnd.choice([">=", ">=", "=="]), "value": rnd.choice([2, 4, sp["fanout"]])}]
+            elif kind == "prod_ge":
+                a_, b_ = rnd.sample(rvs, 2)
+                sp["loop_bounds"] = [{"expression": f"{a_} | {b_}", "operator": "product>=", "value": rnd.choice([2, 4])}]
             elif kind == "prod":
                 a_, b_ = rnd.sample(rvs, 2)
                 sp["loop_bounds"] = [{"expression": f"{a_} | {b_}", "operator": "product<=", "value": rnd.choice([2, 3])}]
